@@ -66,11 +66,19 @@ func (f *Fill) Call(s *slip.Scope, args slip.List, depth int) (result slip.Objec
 	if v, ok := slip.GetArgsKeyValue(kargs, slip.Symbol(":start")); ok {
 		start = getFixnumArg(s, v, ":start", depth)
 	}
-	if v, ok := slip.GetArgsKeyValue(kargs, slip.Symbol(":end")); ok {
+	if v, ok := slip.GetArgsKeyValue(kargs, slip.Symbol(":end")); ok && v != nil {
 		end = getFixnumArg(s, v, ":end", depth)
 	}
 	result = args[0]
 	switch seq := args[0].(type) {
+	case nil:
+		// The empty list, nothing to fill.
+		if end == math.MaxInt {
+			end = 0
+		}
+		if start != 0 || end != 0 {
+			slip.ErrorPanic(s, depth, ":start %d and :end %d are out of bounds for a sequence of size 0", start, end)
+		}
 	case slip.List:
 		end = checkStartEnd(s, start, end, len(seq), depth)
 		for i := start; i < end; i++ {
